@@ -370,7 +370,11 @@ def run(ctx, rep):
     from . import c10 as _c10
 
     _c10.rule_prot_mut(ctx, rep)  # a thin handle destroys (and frees) as many elements as the recorded length says: nothing lets safe code change it
+    from . import c11 as _c11
+
+    _c11.rule_refcnt_pair(ctx, rep)  # arc-swap settles a guard's debt by comparing `as_ptr` with `into_ptr`: if the glue lets them differ it releases a count nobody owned
     balance.rule_payload_dup(ctx, rep)  # a value read out bitwise while its handle is still armed is destroyed twice if something unwinds
+    balance.rule_payload_gap(ctx, rep)  # ... and a payload destroyed in place leaves a hole until it is written again
     rule_destroy(ctx, rep)
     from . import c03
 
